@@ -45,11 +45,15 @@ ASequence(calls) == /\ out.op = "init" /\ c.kind = "sequence"
 MV(M, v) == [i \in 1..Len(M) |-> SumInts([k \in 1..Len(v) |-> M[i][k] * v[k]])]
 MVCases == << <<<<<<1, 2, 3>>, <<4, 5, 6>>>>, <<1, -2, 3>>>>, <<<<<<1, 2>>, <<3, 4>>, <<5, -6>>>>, <<2, -1>>>>, <<<<<<2, 0, 1>>, <<-1, 3, 2>>, <<4, 1, -2>>>>, <<1, 2, -3>>>>,
              <<<<<<1, 2, 3, 4>>>>, <<1, 1, -1, 2>>>> >>
+LinCases == << <<R(5, 4), R(-1, 2), 4>>, <<One, Zero, 3>>, <<RI(-1), RI(-3), 5>>, <<RI(2), RI(2), 3>>, <<RI(-2), R(-1, 2), 2>>, <<Zero, One, 7>> >>
 HV == <<<<1, 2, 3>>, <<-2, 0, 5>>, <<3, 4>>, <<-1, 2>>, <<0, 0, 2>>, <<4, -3, 0>>, <<2, 5>>>>
 AHelpers == /\ out.op = "init" /\ c.kind = "helpers"
    /\ out' = [op |-> "helpers",
               binom |-> [n \in 1..9 |-> [k \in 1..(n + 1) |-> Binom(n, k - 1)]],
               linspace |-> [num \in 1..6 |-> Linspace(R(-1, 2), R(5, 4), num)],
+              \* other intervals: decreasing, negative, degenerate
+              linspace2 |-> [i \in 1..Len(LinCases) |-> [a |-> LinCases[i][1], b |-> LinCases[i][2], num |-> LinCases[i][3],
+                                                         res |-> Linspace(LinCases[i][1], LinCases[i][2], LinCases[i][3])]],
               matmul |-> MatMulI(<<<<1, 2, 3>>, <<4, 5, 6>>>>, <<<<1, 0>>, <<2, -1>>, <<0, 3>>>>),
               cross |-> VCross(VInts(<<1, 2, 3>>), VInts(<<-2, 0, 5>>)), dot |-> VDot(VInts(<<1, 2, 3>>), VInts(<<-2, 0, 5>>)),
               norm2 |-> VNorm2(VInts(<<3, 4, 12>>)),
